@@ -108,3 +108,18 @@ Proof. vm_compute. reflexivity. Qed.
 Example C02_example_errors :
   fst (calc_input_signature_hash ex_tx 2 65) = SErr ErrInputNoExist.
 Proof. vm_compute. reflexivity. Qed.
+
+(** the hash-type constants of the model are those of sighash/flag.go (coq/gen/MiscConsts.v is regenerated from
+    the Go source on every run) *)
+From Coq Require Import String ZArith.
+From GoBT Require Import gen.MiscConsts proofs.InterpConstsProofs proofs.MiscConstsProofs.
+Local Open Scope string_scope.
+Theorem C02_sighash_constants_match :
+  lookup sighash_consts "All" = Some (Z.of_N sh_all) /\
+  lookup sighash_consts "None" = Some (Z.of_N sh_none) /\
+  lookup sighash_consts "Single" = Some (Z.of_N sh_single) /\
+  lookup sighash_consts "AnyOneCanPay" = Some (Z.of_N sh_anyonecanpay) /\
+  lookup sighash_consts "ForkID" = Some (Z.of_N sh_forkid) /\
+  lookup sighash_consts "Mask" = Some (Z.of_N sh_mask).
+Proof. destruct sighash_consts_match as (H1 & H2 & H3 & H4 & H5 & H6 & _). repeat split; assumption. Qed.
+Print Assumptions C02_sighash_constants_match.
